@@ -85,7 +85,8 @@ package executor
 //@   at call IsRecordsEquals#3: assert compares-before-current: arg_beforeImage == b.sqlUndoLog.BeforeImage && arg_afterImage == callres("queryCurrentRecords#1", 0)
 
 //@ func (*mySQLUndoUpdateExecutor).ExecuteOn
-//@   prop C09
+//@   prop C09 C01
+//@   at call GetOrderedPkList: assert C01/keys-of-the-row-being-restored: arg_row == row && arg_image == m.sqlUndoLog.BeforeImage
 //@   modifies ghost.all, heap.all
 //@   requires m != nil && conn != nil && m.baseExecutor != nil
 //@   ensures validated-first: ghost.stmts_open != old(ghost.stmts_open) || ghost.execs != old(ghost.execs) || called("PrepareContext#1") ==> called("dataValidationAndGoOn#1")
@@ -95,7 +96,8 @@ package executor
 //@   at call PrepareContext#1: assert same-conn: called("dataValidationAndGoOn#1") && callarg("dataValidationAndGoOn#1", 2) == conn
 
 //@ func (*mySQLUndoDeleteExecutor).ExecuteOn
-//@   prop C09
+//@   prop C09 C01
+//@   at call GetOrderedPkList: assert C01/keys-of-the-row-being-restored: arg_row == row && arg_image == m.sqlUndoLog.BeforeImage
 //@   modifies ghost.all, heap.all
 //@   requires m != nil && conn != nil && m.baseExecutor != nil
 //@   ensures validated-first: ghost.stmts_open != old(ghost.stmts_open) || ghost.execs != old(ghost.execs) || called("PrepareContext#1") ==> called("dataValidationAndGoOn#1")
